@@ -11,11 +11,13 @@ Section V.
   Variable v : vdi.
   Hypothesis Hbs : 0 < v_bs v.
 
-  Lemma vdi_emit_ok idx e io n :
-    vdi_lookup v idx = Ok e -> 0 <= idx -> 0 <= io -> 0 < n -> io + n <= v_bs v ->
-    srcs_of (vdi_emit v e idx io n) = map (vdi_src v) (zseq ((idx * v_bs v + io) * 1) (n * 1)).
+  Lemma vdi_emit_ok idx e io n segs :
+    vdi_lookup v idx = Ok e -> vdi_emit v e idx io n = Ok segs ->
+    0 <= idx -> 0 <= io -> 0 < n -> io + n <= v_bs v ->
+    srcs_of segs = map (vdi_src v) (zseq ((idx * v_bs v + io) * 1) (n * 1)).
   Proof.
-    intros Hlk Hidx Hio Hn Hfit. rewrite !Z.mul_1_r.
+    intros Hlk Hem Hidx Hio Hn Hfit. rewrite !Z.mul_1_r.
+    unfold vdi_emit in Hem. injection Hem as <-.
     unfold vdi_lookup in Hlk. destruct (v_map v idx) as [e'|] eqn:Hmap; [|discriminate].
     injection Hlk as ->.
     assert (Hsrc : forall j, 0 <= j < n ->
@@ -32,7 +34,7 @@ Section V.
       if e =? -1 then (if v_parent v then Parent (idx * v_bs v + io + j) else Zero)
       else if e =? -2 then Zero else File (v_data v + e * v_bs v + io + j)) 0 n)
       by (intros; apply Hsrc; lia).
-    unfold vdi_emit. rewrite UNALLOCATED_eq, SPARSE_eq.
+    rewrite UNALLOCATED_eq, SPARSE_eq.
     destruct (e =? -1).
     - destruct (v_parent v); unfold srcs_of; cbn [flat_map srcs_of_seg]; rewrite app_nil_r.
       + rewrite (zseq_rel Parent). reflexivity.
@@ -45,6 +47,9 @@ Section V.
   Lemma vdi_lookup_not_fuel i : vdi_lookup v i <> Fuel.
   Proof. unfold vdi_lookup. destruct (v_map v i); discriminate. Qed.
 
+  Lemma vdi_emit_not_fuel e i io n : vdi_emit v e i io n <> Fuel.
+  Proof. discriminate. Qed.
+
   (* whatever the block map holds, a successful read is exactly the guest bytes *)
   Theorem vdi_read_sound fuel off len p :
     0 <= off -> vdi_read v fuel off len = Ok p ->
@@ -52,7 +57,7 @@ Section V.
   Proof.
     intros Hoff Hrun. unfold vdi_read in Hrun.
     pose proof (walk_correct (v_bs v) 1 (vdi_lookup v) (vdi_emit v) (vdi_src v) Hbs ltac:(lia)
-                  (fun idx a io n => vdi_emit_ok idx a io n) fuel off _ p Hoff Hrun) as H.
+                  (fun idx a io n segs => vdi_emit_ok idx a io n segs) fuel off _ p Hoff Hrun) as H.
     rewrite !Z.mul_1_r in H. exact H.
   Qed.
 
@@ -60,7 +65,7 @@ Section V.
     0 <= off -> len < Z.of_nat fuel -> vdi_read v fuel off len <> Fuel.
   Proof.
     intros Hoff Hf. unfold vdi_read.
-    apply (walk_fuel (v_bs v) (vdi_lookup v) (vdi_emit v) Hbs vdi_lookup_not_fuel); lia.
+    apply (walk_fuel (v_bs v) (vdi_lookup v) (vdi_emit v) Hbs vdi_lookup_not_fuel vdi_emit_not_fuel); lia.
   Qed.
 
   (* the map covers the disk *)
@@ -75,9 +80,10 @@ Section V.
       srcs_of p = map (vdi_src v) (zseq off (Z.min len (v_size v - off))).
   Proof.
     intros [Hsz Hcov] Hoff Hlen.
-    assert (Hc : covers (v_bs v) (vdi_lookup v) (v_size v)).
-    { intros i Hi Hlt. destruct (Hcov i Hi Hlt) as [e He]. exists e.
-      unfold vdi_lookup. now rewrite He. }
+    assert (Hc : covers (v_bs v) (vdi_lookup v) (vdi_emit v) (v_size v)).
+    { intros i Hi Hlt. destruct (Hcov i Hi Hlt) as [e He]. exists e. split.
+      - unfold vdi_lookup. now rewrite He.
+      - intros io n. eexists. reflexivity. }
     destruct (walk_ok (v_bs v) (vdi_lookup v) (vdi_emit v) Hbs (vdi_fuel len) off
                 (Z.min len (v_size v - off)) (v_size v) Hc ltac:(lia) ltac:(lia)
                 ltac:(unfold vdi_fuel; lia)) as [p Hp].
